@@ -395,6 +395,9 @@ func checkRefusals(which string, cfg gwsim.Config, tr *gwsim.Trace, r *vf.Result
 	)
 	st := closed
 	will := false
+	// failedBefore: an earlier packet of this session was refused (zero keep-alive, unknown AUTH
+	// method, malformed PLAIN data): the session may be on its way out since then
+	failedBefore := false
 	for i, e := range tr.Events {
 		if e.Dir == gwsim.EV && e.What == "END" {
 			return
@@ -457,6 +460,7 @@ func checkRefusals(which string, cfg gwsim.Config, tr *gwsim.Trace, r *vf.Result
 						r.Fail("mqtt-connect-for-keepalive0", "MQTT CONNECT sent for zero keep-alive\n%s", tr.Dump(25))
 					}
 				}
+				failedBefore = true
 				break
 			}
 			will = p.Will
@@ -473,16 +477,29 @@ func checkRefusals(which string, cfg gwsim.Config, tr *gwsim.Trace, r *vf.Result
 				if which == "C08" {
 					r.NonTrivial = true
 					r.Label("unknown-auth-method")
-					owe("unknown-auth-method-no-not-supported", fmt.Sprintf("AUTH with method %q awaited by an open exchange was not answered with CONNACK(not supported)", p.Method), hasConnack(3))
+					// The method is looked at before anything else of the packet: the answer is owed also by a
+					// session which ends right afterwards, unless an earlier packet of the session was
+					// refused already or anything but a plain CONNECT arrived within the last poll interval
+					// before the end (the session may have been on its way out), or the 5 s connect timeout
+					// is due.
+					earlier := false // another datagram than a plain CONNECT within the last poll interval before the end
+					for j := 0; j < i; j++ {
+						if x := tr.Events[j]; x.Dir == gwsim.CG && x.Ns >= tr.EndNs-101e6 && (x.SN == nil || x.SN.Type != snref.CONNECT || x.SN.Duration == 0) {
+							earlier = true
+						}
+					}
+					if !hasConnack(3) && !(doomed && (failedBefore || earlier || e.Ns >= 4900e6)) {
+						r.Fail("unknown-auth-method-no-not-supported", "AUTH with method %q awaited by an open exchange was not answered with CONNACK(not supported)\n%s", p.Method, tr.Dump(25))
+					}
 					if mqConnect() {
 						r.Fail("unknown-auth-method-connect-sent", "MQTT CONNECT sent after an AUTH with unknown method %q\n%s", p.Method, tr.Dump(25))
 					}
 				}
-				st = closed
+				st, failedBefore = closed, true
 			} else if _, ok := plainCreds(p); ok {
 				afterAuth()
 			} else {
-				st = closed // malformed PLAIN data: the exchange fails
+				st, failedBefore = closed, true // malformed PLAIN data: the exchange fails
 			}
 		case snref.WILLTOPIC:
 			if st == awaitWillTopic {
